@@ -5,10 +5,11 @@ From Coq Require Import Permutation.
 From Verif Require Import lib.Wire c05.ModelLimiter c05.SpecLimiter c05.Proofs_Limiter gen.Consts_c05.
 From Verif Require Import c05.ModelWorker c05.SpecWorker c05.Proofs_Worker.
 From Verif Require Import c05.ModelRanker c05.SpecRanker c05.Proofs_Ranker.
-From Verif Require Import c05.Proofs_LimiterMon c05.Proofs_WorkerMon c05.Proofs_LimiterOnce c05.Proofs_WorkerMon2.
+From Verif Require Import c05.Proofs_LimiterMon c05.Proofs_WorkerMon c05.Proofs_LimiterOnce c05.Proofs_WorkerMon2 c05.Proofs_WorkerMon3.
 From Verif Require Import c05.ModelSync c05.SpecSync c05.Proofs_Sync c05.SpecDialPeer.
 From Verif Require Import c05.ModelComposite c05.SpecComposite c05.Proofs_Composite c05.Proofs_Composite2 c05.Proofs_Composite3.
 From Verif Require Import c05.Proofs_Composite4 c05.Proofs_Composite5 c05.Proofs_Composite6 c05.Proofs_CompositeMon.
+From Verif Require Import c05.Proofs_CompositeHI c05.Proofs_CompositeMon5.
 Import ListNotations.
 Local Open Scope Z_scope.
 
@@ -124,20 +125,16 @@ Print Assumptions c05_all_eligible_attempted.
    (SpecWorker.monitor_w), run on the trace of the model for EVERY sequence of well-formed
    harness stimuli (requests with fresh ids and repetition-free rankings, clock advances, dial
    updates for dials in flight, back-off entries, inbound connections, close; every due timer
-   fires after each), never reports clause 1 (request answered twice), 2 (address handed to a
-   transport twice), 4 (request unanswered at quiescence) or 5 (a candidate address neither
-   handed to a transport nor ever in back-off at quiescence without a connection).
-   _partial: clause 3 (a response is justified: a connection only when one exists or a
-   candidate address succeeded, an error only when every candidate failed or was refused) is
-   judged on the implementation's traces only.  What is missing is the provenance of each
-   response kind: invariants relating, per pending request, the candidates already removed
-   from pr.addrs to addresses the monitor knows as failed / ever in back-off, and DConn / DErr
-   statuses in trackedDials to the monitor's succ / failed sets. *)
-Theorem c05_worker_monitor_holds_partial : forall xs, wf_stims (init_env, init_w) xs ->
-  forall d, monitor_w wmon0 0 (wtrace (init_env, init_w) xs) = d ->
-  d = [] \/ exists j, d = [ERR_PROPERTY; j; 3].
-Proof. exact monitor_w_holds5_l. Qed.
-Print Assumptions c05_worker_monitor_holds_partial.
+   fires after each), accepts: it never reports clause 1 (request answered twice), 2 (address
+   handed to a transport twice), 3 (a response is not justified: a connection only when an
+   acceptable one exists or a candidate address of the request succeeded, an error only when
+   every candidate has failed or was refused by back-off), 4 (request unanswered at
+   quiescence) or 5 (a candidate address neither handed to a transport nor ever in back-off
+   at quiescence without a connection). *)
+Theorem c05_worker_monitor_holds : forall xs, wf_stims (init_env, init_w) xs ->
+  monitor_w wmon0 0 (wtrace (init_env, init_w) xs) = [].
+Proof. exact monitor_w_holds_l. Qed.
+Print Assumptions c05_worker_monitor_holds.
 
 (* ---- dialSync ------------------------------------------------------------------------
    for EVERY interleaving of getActiveDial / locked-tail-of-Dial sections of any number
@@ -305,23 +302,22 @@ Print Assumptions c05_composite_no_lost_job.
 (* HEADLINE (composite): the DialPeer monitor that judges the implementation's traces, run on
    the trace of the composite model under the harness-level semantics (SpecComposite: one
    stimulus, then every enabled step until nothing moves) for EVERY sequence of stimuli with
-   fresh caller ids, never reports clause 2 (a cancelled caller is released in the same step
-   with its context error) or clause 4 (caps).
-   _partial, exactly what remains: clause 1 (returns are of callers inside, at most once, a
-   connection only after some dial produced one) and 7/8 (caller count) need the coupling of the
-   monitor's wait/done lists with callers and c_rets as multisets plus the provenance of
-   RespConn; clause 3 (dial starts without repetition while any caller waits) needs the
-   coupling of monitor epochs with generations; clauses 5 (cancel ends no dial of the others),
-   6 (nothing left once all returned) and 9 (a caller waits only while a dial is in flight) need
-   a proof that the fuel-bounded drain (SpecComposite.ROUNDS rounds) reaches quiescence, which
-   does not hold for arbitrarily long chains; their state-level counterparts for every schedule
-   are c05_composite_leaving_caller_keeps_shared_dials, _no_leaked_active_dial and
-   _no_lost_job. *)
+   fresh caller ids and repetition-free rankings, never reports clause 1 (a return is of a
+   caller inside, at most once, never of another peer, with a connection only after some dial
+   produced one), 2 (a cancelled caller is released in the same step with its context error),
+   3 (while any caller waits each address is handed to a transport at most once), 4 (caps) or
+   7 (the count of callers inside).
+   _partial, exactly what remains: clauses 5 (cancel ends no dial of the others), 6 (nothing
+   left once all returned) and 9 (a caller waits only while a dial is in flight) need the
+   lemma that the drain of SpecComposite reaches quiescence (no deliverable request, no due
+   timer, no started goroutine, no cancelled dial in progress, no ready return, no exit
+   pending); their state-level counterparts for every schedule are
+   c05_composite_leaving_caller_keeps_shared_dials, _no_leaked_active_dial and _no_lost_job. *)
 Theorem c05_composite_monitor_accepts_partial : forall fdl ppl fds xs, 0 <= fdl -> 0 <= ppl ->
-  wf_kstims (init_denv, init_c fdl ppl fds) xs ->
+  wf_kstims2 (init_denv, init_c fdl ppl fds) xs ->
   forall d, monitor_d fdl ppl (mkDmon [] [] [] false false) 0 (ctrace (init_denv, init_c fdl ppl fds) xs) = d ->
-  d = [] \/ exists j c, d = [ERR_PROPERTY; j; c] /\ c <> 2 /\ c <> 4.
-Proof. exact monitor_d_accepts_partial24_l. Qed.
+  d = [] \/ exists j c, d = [ERR_PROPERTY; j; c] /\ (c = 5 \/ c = 6 \/ c = 9).
+Proof. exact monitor_d_accepts_569_l. Qed.
 Print Assumptions c05_composite_monitor_accepts_partial.
 
 (* ---- non-vacuity ----------------------------------------------------------------- *)
